@@ -754,7 +754,7 @@ def r_integer_literals(r, prog):
             a0 = vexpr(f, c.args[0])
             if a0 != san:
                 bad.append((c.name(), a0))
-    if n >= 4 and not bad:
+    if n >= 3 and not bad:
         r.ok('the base prefix is looked for in, and the digits are taken from, the literal without its underscores (%d uses)' % n)
     else:
         r.finding('literal-text-source', f.span, 'try_parse_integer inspects %s; every test and slice must use the underscore-free text %s' % (bad or 'too few sites', san))
@@ -763,12 +763,17 @@ def r_integer_literals(r, prog):
         if rv['k'] == 'agg' and rv.get('ak') == 'tuple' and len(rv['ops']) == 2 and not f.blocks[bb].get('cleanup'):
             tuples.append((vexpr(f, rv['ops'][0]), vexpr(f, rv['ops'][1]), guards.guard_set(prog, f, bb)))
     want = {"index(%s,RangeFrom::RangeFrom{start:2})|2" % san: "starts_with(%s,'0b')" % san, "index(%s,RangeFrom::RangeFrom{start:2})|16" % san: "starts_with(%s,'0x')" % san}
+    # second idiom for the same table: strip_prefix gives the digits directly
+    want2 = {"strip_prefix(%s,'0b') as Some.0|2" % san: "strip_prefix(%s,'0b') is Some" % san, "strip_prefix(%s,'0x') as Some.0|16" % san: "strip_prefix(%s,'0x') is Some" % san}
     seen = set()
     for lit, base, gs in tuples:
         key = '%s|%s' % (lit, base)
         if key in want and want[key] in gs:
             seen.add(key)
-        elif lit in (san, 'as_str(%s)' % san) and base == '10' and all(('!(%s)' % w) in gs for w in want.values()):
+        elif key in want2 and want2[key] in gs:
+            seen.add(key)
+        elif lit in (san, 'as_str(%s)' % san) and base == '10' and (all(('!(%s)' % w) in gs for w in want.values())
+                                                                   or all(w.replace(' is Some', ' is not Some') in gs for w in want2.values())):
             seen.add('dec')
         else:
             r.finding('literal-base:%s' % base, f.span, 'digits %s are parsed in base %s under %s' % (lit, base, gs))
@@ -834,8 +839,53 @@ def r_lexer_modes(r, prog):
     for a in aggregates(prog, TK, crates=('slicec',)):
         if a['fn'] is lx and a['rv']['v'] in ('StringLiteral', 'IntegerLiteral', 'DocComment') and not lx.blocks[a['bb']].get('cleanup'):
             pay[a['rv']['v']] = (vexpr(lx, a['rv']['ops'][0]), guards.guard_set(prog, lx, a['bb']))
-    want = {'StringLiteral': ('read_string_literal(arg1) as Ok.0', 'arg2 == 34'), 'IntegerLiteral': ('read_alphanumeric(arg1)', 'is_ascii_digit(arg2)'), 'DocComment': ('read_line_comment(arg1)', 'arg2 == 47')}
+    want = {'StringLiteral': ('read_string_literal(arg1) as Ok.0', 'arg2 == 34'), 'IntegerLiteral': ('read_alphanumeric(arg1)', 'is_ascii_digit(arg2)'), 'DocComment': ('@rest-of-line', 'arg2 == 47')}
+
+    def rest_of_line(g):
+        """g returns (or, for the lexing function itself, builds) the current block's content between the position before and the position after
+        one advance_to_end_of_line()"""
+        gp = [c for c in g.calls() if c.name() == 'get_position' and not g.blocks[c.bb].get('cleanup')]
+        adv = [c for c in g.calls() if c.name() == 'advance_to_end_of_line' and not g.blocks[c.bb].get('cleanup')]
+        ix = [c for c in g.calls() if c.name() == 'index' and not g.blocks[c.bb].get('cleanup') and vexpr(g, c.args[0]) == 'arg1.current_block.content'
+              and vexpr(g, c.args[1]) == 'Range::Range{start:get_position(arg1),end:get_position(arg1)}']
+        for i in ix:
+            rng = g.defs_of(op_place(i.args[1])['l'])
+            ops = [d[3]['ops'] for d in rng if d[0] == 'assign' and d[3]['k'] == 'agg']
+            if len(ops) != 1:
+                continue
+            srcs = [[c for c in gp if c.dest is not None and vexpr(g, {'cp': c.dest}) == 'get_position(arg1)' and _flows(g, c, o)] for o in ops[0]]
+            for a in srcs[0]:
+                for b in srcs[1]:
+                    if any(g.dominates(a.bb, m.bb) and g.dominates(m.bb, b.bb) and a.bb != m.bb != b.bb for m in adv) and g.dominates(b.bb, i.bb):
+                        return i
+        return None
+
+    def _flows(g, call, operand):
+        pl = op_place(operand)
+        seen = set()
+        while pl is not None and pl['l'] not in seen:
+            seen.add(pl['l'])
+            if call.dest is not None and pl['l'] == call.dest['l']:
+                return True
+            ds = [d for d in g.defs_of(pl['l']) if d[0] in ('assign', 'call')]
+            if len(ds) != 1:
+                return False
+            if ds[0][0] == 'call':
+                return ds[0][3] is call
+            pl = op_place(ds[0][3].get('a')) if ds[0][3]['k'] in ('use', 'cast') else None
+        return False
+
     for k, (val, gd) in want.items():
+        if val == '@rest-of-line' and k in pay and gd in pay[k][1]:
+            got = pay[k][0]
+            m = re.match(r'^(\w+)\(arg1\)$', got)
+            reader = prog.fns.get(SL + m.group(1)) if m else None
+            if (reader is not None and rest_of_line(reader) is not None and vexpr(reader, {'cp': {'l': 0}}, depth=8).startswith('index(arg1.current_block.content,')) \
+                    or (got.startswith('index(arg1.current_block.content,') and rest_of_line(lx) is not None):
+                r.ok('%s carries the rest of the line after the slashes (content between the positions around advance_to_end_of_line)' % k)
+            else:
+                r.finding('payload-token:%s' % k, lx.span, '%s is built as %s' % (k, pay.get(k)))
+            continue
         if k in pay and pay[k][0] == val and gd in pay[k][1]:
             r.ok('%s carries the text read by %s' % (k, val.split('(')[0]))
         else:
